@@ -126,4 +126,6 @@ pub fn run(ctx: &Ctx) {
     }
     let acc = ctx.classes_matching(|c| c.ends_with(":accepted")); let rej = ctx.classes_matching(|c| c.ends_with(":rejected"));
     ctx.guard_check("conforming and non-conforming documents both seen", acc >= 10 && rej >= 40, format!("{acc} accepting classes, {rej} rejecting classes"));
+    crate::hist::histories(ctx, P, "document-histories-c09", "TypedData from JSON and its three digests, a sequence on one fresh thread", crate::hist::td_ops());
+    crate::tdcheck::value_pairs(ctx, P, "value-pairs-c09");
 }
